@@ -96,3 +96,25 @@ ACTOR_ASSUMPTIONS = [
 ]
 for _p in ["C01", "C02", "C03", "C04", "C07", "C08", "C09", "C13", "C15", "C16", "C17", "C19", "C20"]:
     CHECKS[_p] = B(_p)
+
+ENGINES.append({"name": "B-actor", "path": "harness/actor", "serves_properties": ["C01", "C02", "C03", "C04", "C07", "C08", "C09", "C13", "C15", "C16", "C17", "C19", "C20"],
+                "kind_free_text": "rapidcheck-generated actor programs (modules with scripted re-entrant callbacks) executed in a forked child against the ASan/UBSan build, in lock step with a reference model of the documented semantics; per-property generator profiles and rule sets"})
+_B_NOTE = "Trusts: the lock-step reference model (harness/actor, written from the property statements and docs), libc regcomp/regexec, clang ASan/UBSan, the tracking allocator installed through m_set_memhook, /proc/self/fd. Not judged: the spec corners listed in DESIGN.md 8.2 and the excluded shapes counted in the evidence."
+def _metaB(pid, sec, text):
+    META[pid] = {"engine": "B-actor", "design_ref": "DESIGN.md section 4 (%s)" % sec,
+                 "technique": "rapidcheck stateful / model-based testing of generated actor programs with re-entrant callback scripts against a lock-step reference model (fork per case, ASan/UBSan)",
+                 "level_text": text + " Holds for the explored programs only (<= 4 modules, <= 45 top-level ops, scripts <= 4 ops); dispatch-driven loop.",
+                 "level_note": _B_NOTE}
+_metaB("C01", "C01", "Life-cycle calls in every state (about half illegal), callbacks that refuse / stop / deregister re-entrantly, evaluation passes: each return code, each start/stop/eval/handler callback and every state/running-count probe is checked against the documented state machine.")
+_metaB("C02", "C02", "Sends of all kinds over literal and regex subscriptions in mixed module states, floods beyond the pipe size, auto-free payloads: eligibility sets computed by the model at send time, every delivered event matched against the recipient's mailbox, loop-end delivery obligation, payload release accounting.")
+_metaB("C03", "C03", "Descriptor/timer/pub-sub sources made ready in shared poll batches, errno values left by callbacks, quit with pending events: owner/user-data routing, one-shot retirement, loop return code and no-drop obligations.")
+_metaB("C04", "C04", "Union of all profiles with retained module/event references, self-stop/deregister/unsubscribe inside handlers with messages in flight and pipe-filling bursts: no sanitizer report, no allocator misuse, zombies answer, nothing outstanding after teardown.")
+_metaB("C07", "C07", "Context register/deregister/finalize/dispatch interleaved with module registrations, also from callbacks: EEXIST on second context, failing calls without context, teardown stops and zombifies every module, auto-release vs persistence, finalize.")
+_metaB("C08", "C08", "Several senders, batching, pause/resume, loop stop/restart, poison pills: per-recipient delivery order equals accept order; the pill stops its recipient only after everything sent before it and nothing after it is delivered.")
+_metaB("C09", "C09", "Register/deregister of descriptor, timer and subscription sources in every order on idle/running/paused/stopped modules: keyed-set model per kind and m_mod_src_len per kind after every call.")
+_metaB("C13", "C13", "Batch sizes, timeouts, LOW/NORM/HIGH subscriptions and descriptor sources: prefix-trigger rule on every handler invocation, quiescence obligation, no loss/duplication.")
+_metaB("C15", "C15", "All module flag combinations, equal names in every order, restricted calls from outside and from every callback kind: permission model and absence of effects.")
+_metaB("C16", "C16", "stash / unstash(n) for n around the stash size from outside and inside handlers: FIFO model, exact count, identical events, single nested invocation.")
+_metaB("C17", "C17", "become/unbecome from outside and inside handlers across deliveries and stop/start: handler-stack model, identity of every invoked handler.")
+_metaB("C19", "C19", "Subscribers to system topics (literal and regex) while other modules start/resume/pause/stop/deregister and the loop starts/stops: required notifications must arrive, every system-flagged event must correspond to an occurrence.")
+_metaB("C20", "C20", "Descriptor and timer sources with auto-close / dup / one-shot flags across every way a module can leave: /proc/self/fd before/after equality and ownership of closes.")
